@@ -70,9 +70,6 @@ var contexts = [][2]string{
 
 var suffixesQuick = []string{"", " 1"}
 
-var suffixes = []string{
-	"", "]", "}", ")", "\"", "'", "1", " 1", ",1", "\"}", ":1}", "0", "e1", " ", ",", "\":1}", "\"]", "a", "ull", "*/", "/", "\n", "\n,:1}", "+\"b\"", "041\"", ".5", "-1",
-}
 
 var suffixesFull = []string{"", " 1", "\"", "a", "]", ":1}", ")", "\n,:1}"}
 
